@@ -16,6 +16,9 @@ open Proto Rng
       cobj <right> <rejectsNaN> <atol> <na|ndim of items> <ndim of p> <np.sum(p)> <items> <ps> <us> -> REJ:<class> | ok:<items|ERR>
       ncpu <cfg|-> <local|->  -> ok:<n> | ERR:value
       labels <start> <file> <cur> <pos> <ncpu> <tables>  -> seed labels of the rows an extension appends
+      extfile <start> <n> <ncpu> <seed> <pos> <file> <grid1> <grid2> <maxEv> <thr> <maxRep> <npar> <lo> <hi> <tables>
+          grid = s:<m> | r2:<a>,<b> | r3:<a>,<b>,<step> | a:<list>
+          -> rows:<…> file:<labels of the new file> rss:<seed>:<pos>  |  ERR:<index|value|runtime> rss:<…>
       trials <n> <ncpu> <seed> <pos> <mseed:mpos|-|same> <maxEv> <nSig> <thr> <maxRep> <npar> <lo> <hi> <tables>
           tables = seed=w,w,…;seed=w,…   (32-bit words of numpy's MT19937 streams, supplied by the harness)
           (`same` = the data service itself is passed as minimizer_rss: reference 0 twice)
@@ -119,6 +122,19 @@ def fCErr : CErr → String
   | .valueError => "value"
   | .indexError => "index"
 
+/-- `s:<m>` | `r2:<a>,<b>` | `r3:<a>,<b>,<step>` | `a:<list>` -/
+def pGrid (s : String) : GridArg Float :=
+  match s.splitOn ":" with
+  | ["s", m] => .scalar (pF m)
+  | ["r2", ab] => match pList pF ab with
+    | [a, b] => .range2 a b
+    | _ => .array []
+  | ["r3", abs] => match pList pF abs with
+    | [a, b, st] => .range3 a b st
+    | _ => .array []
+  | ["a", xs] => .array (pList pF xs)
+  | _ => .array []
+
 def pForm (s : String) : ArgForm := if s == "na" then .notArray else .array s.toNat!
 
 def answer (line : String) : String :=
@@ -189,6 +205,24 @@ def answer (line : String) : String :=
       | .error _ => "ERR:value"
   | ["labels", st, file, cur, pos, ncpu, tabs] =>
       fListD toString (extendLabels (genOf (parseTables tabs)) id (pN st) (pList pN file) (pN cur) (pN pos) (pN ncpu))
+  | ["extfile", st, n, ncpu, seed, pos, file, g1, g2, maxEv, thr, maxRep, npar, lo, hi, tabs] =>
+      -- extend_trial_data_file(ana, rss, n, trial_data, mean_n_sig=g1, mean_n_sig_null=g2, ncpu) on the synthetic analysis
+      let clen := fun (x : Float) => if x ≤ 0 then 0 else x.ceil.toUInt64.toNat
+      let grid := (gridOf Nat.toFloat clen (pGrid g1)).flatMap (fun m =>
+        (gridOf Nat.toFloat clen (pGrid g2)).map (fun m0 => (m, m0)))
+      let cfgOf := fun (g : Float × Float) =>
+        synCfg ⟨pN maxEv, g.1.floor.toUInt64.toNat, pF thr, pN maxRep, pN npar, pF lo, pF hi⟩
+      let w : World := fun _ => ⟨pN seed, pN pos⟩
+      match extendFile (genOf (parseTables tabs)) id cfgOf (pN st) (pN n) (pN ncpu) 0 none grid (pList pN file) w with
+      | (.error e, w') =>
+        let c := match e with
+          | .indexError => "index"
+          | .valueError => "value"
+          | .runtimeError => "runtime"
+        s!"ERR:{c} rss:{fStream (w' 0)}"
+      | (.ok (file', rows), w') =>
+        let rs := if rows.isEmpty then "-" else String.intercalate "|" (rows.map fRow)
+        s!"rows:{rs} file:{fListD toString file'} rss:{fStream (w' 0)}"
   | _ => "bad-op"
 
 def main : IO Unit := do loop (← IO.getStdin) answer
